@@ -16,6 +16,28 @@ def value(tag):
     return (100 * c + 10 * j + 1) / 8.0
 
 
+WIDTH = 2.0 ** -10
+
+
+def support(tag):
+    """tag <<-c, k>>: the distribution written for name k in call c -- uniform on [lo, lo + WIDTH], supports pairwise
+    disjoint and disjoint from every number value() produces"""
+    c, k = tag
+    lo = 1000.0 + value((-c, k))
+    return lo, lo + WIDTH
+
+
+def distribution(tag, kind):
+    lo, hi = support(tag)
+    if kind == 0:
+        import scipy.stats
+        return scipy.stats.uniform(loc=lo, scale=hi - lo)           # frozen distribution
+    from pygom.utilR import distn
+    if kind == 1:
+        return (distn.runif, (lo, hi))                              # (sampler, positional arguments)
+    return (distn.runif, {"min": lo, "max": hi})                    # (sampler, keyword arguments)
+
+
 def make_model(npar):
     names = ["a", "b", "c", "d"][:npar]
     states = ["X%d" % (i + 1) for i in range(npar)]
@@ -53,11 +75,13 @@ def make_input(step, c, names, unknown="zz"):
     if act in ("Pairs", "RejectUnknownPairs") or (act == "RejectWrongLength" and form == "pairs-list"):
         prs = [(name(k), v) for k, v in zip(nm, vals)]
         return tuple(prs) if form == "pairs-tuple" else prs
-    if act in ("Dict", "RejectUnknownDict", "RejectTooMany"):
+    if act in ("Dict", "DictRandom", "RejectUnknownDict", "RejectTooMany"):
         d = {}
         for k in nm:
             # in a Dict action the value written for name k is tag <<c, k>>
             v = value((c, k)) if k >= 1 else value((c, 9))
+            if k in step.get("rand", []):
+                v = distribution((-c, k), (c + k) % 3)
             if form == "dict-sym" and k >= 1:
                 d[sympy.Symbol(name(k), real=True) if (c + k) % 2 else sympy.Symbol(name(k))] = v
             else:
@@ -91,12 +115,26 @@ def replay_one(hist, npar, unknown):
     m, names = make_model(npar)
     x = X[:npar]
     for c, step in enumerate(hist, start=1):
-        inp = make_input(step, c, names, unknown)
         raised = None
-        try:
-            m.parameters = inp
-        except Exception as ex:        # any exception counts as "rejected with an error"
-            raised = repr(ex)[:200]
+        if step["act"] == "Integrate":
+            # a call that re-draws the names bound to distributions (and only those)
+            inp = step["form"]
+            try:
+                m.initial_values = (np.array(x), np.float64(0.0))
+                if inp == "integrate":
+                    m.integrate(np.array([2.0 ** -12]))
+                elif inp == "integrate2":
+                    m.integrate2(np.array([2.0 ** -12]))
+                else:
+                    m.solve_stochast(2.0 ** -20, 1)
+            except Exception as ex:
+                raised = repr(ex)[:200]
+        else:
+            inp = make_input(step, c, names, unknown)
+            try:
+                m.parameters = inp
+            except Exception as ex:        # any exception counts as "rejected with an error"
+                raised = repr(ex)[:200]
         if step["ok"] and raised:
             return {"step": c, "what": "accepted input form raised", "input": repr(inp), "raised": raised}
         if not step["ok"] and not raised:
@@ -104,7 +142,8 @@ def replay_one(hist, npar, unknown):
         after = step["after"]
         if any(tuple(t) == (0, 0) for t in after):
             continue                   # nothing bound yet: evaluation is not defined
-        theta = np.array([value(t) for t in after])
+        is_rand = [t[0] < 0 for t in after]
+        theta = np.array([support(t)[0] if t[0] < 0 else value(t) for t in after])
         try:
             r = np.asarray(m.eventRateVector(x, 0.0), float).reshape(-1)
             f = np.asarray(m.ode(x, 0.0), float).reshape(-1)
@@ -112,6 +151,16 @@ def replay_one(hist, npar, unknown):
         except Exception as ex:
             return {"step": c, "what": "evaluation raised after the call", "input": repr(inp), "raised": repr(ex)[:200]}
         exp_r = theta * np.array(x)
+        if any(is_rand):
+            # a name bound to a distribution shows SOME draw from that distribution's support
+            shown = r / np.array(x)
+            okv = all((support(t)[0] * x[k] * (1 - 1e-12) <= r[k] <= support(t)[1] * x[k] * (1 + 1e-12)) if is_rand[k]
+                      else (r[k] == exp_r[k]) for k, t in enumerate(after))
+            if not (okv and np.array_equal(f, -r) and np.array_equal(g, -np.diag(x))):
+                return {"step": c, "what": "evaluation does not use the values bound by name",
+                        "input": repr(inp), "parameters_shown": shown.tolist(),
+                        "expected": [list(support(t)) if is_rand[k] else value(t) for k, t in enumerate(after)]}
+            continue
         if not (np.array_equal(r, exp_r) and np.array_equal(f, -exp_r) and np.array_equal(g, -np.diag(x))):
             return {"step": c, "what": "evaluation does not use the values bound by name",
                     "input": repr(inp), "rate_vector": r.tolist(), "expected": exp_r.tolist()}
